@@ -423,6 +423,10 @@ class TypeManager(object):
         whenever needed. To see the functions provided by the type look at
         _BVType.
         """
+        if not isinstance(width, int):
+            # (also before the lookup: 5.0 would find the type of width 5)
+            raise PysmtValueError("The width of a bit-vector must be an "
+                                  "integer, %s is not" % str(width))
         try:
             ty = self._bv_types[width]
         except KeyError:
